@@ -164,7 +164,7 @@ Proof.
   - destruct (find_uni _ _); cbn; [apply tbl_apply_dmx|apply tbl_refl].
   - destruct (find_uni _ _); cbn; [apply tbl_apply_dmx|apply tbl_refl].
   - destruct (find_uni _ _); cbn; apply tbl_refl.
-  - destruct (find_uni _ _); destruct on; cbn; repeat split.
+  - destruct on; destruct (find_uni _ _); cbn; repeat split.
   - destruct (find_uni _ _); cbn; repeat split.
   - destruct (find_uni _ _); cbn; repeat split.
   - destruct (find_uni _ _); cbn; apply tbl_refl.
